@@ -280,6 +280,9 @@ pub async fn client_entrypoint(
 
                     let result = client.handle().await;
 
+                    #[cfg(pgcat_verif)]
+                    crate::verif_hooks::point("client_exit:before_drop");
+
                     if !client.is_admin() {
                         let _ = drain.send(-1).await;
                     }
